@@ -221,6 +221,13 @@ def check(ctx: Ctx) -> None:
     ctx.min_count("remove_class pop paths", npop, 1)
     # ---------------- css() -------------------------------------------------------------------------------------------------------------------
     css_obligations(ctx)
+    # add_class / add_style rely on attrs.update joining every value given for one name, in order (rules C15.*, shared with C15)
+    from .c15 import update_obligations
+    update_obligations(ctx)
+    # the helpers are also used on copies (tagify() / copy()): the copy's attribute map is still a TagAttrDict
+    from ..interp import Interp as _I
+    from .c08 import copy_field_kinds
+    copy_field_kinds(ctx, _I(prog), rule="C16.update")
 
 
 def _kept_by_loop(ctx: Ctx, l: Any, seq: SList, arg: SObj, where: str) -> bool:
